@@ -364,29 +364,39 @@ Definition implicit_level (l : nat) (c : bclass) : nat :=
 (* one isolating run sequence: X10 then W, N, I; returns the new levels of its positions *)
 Definition dir_of_level (l : nat) : bclass := if Nat.even l then L else R.
 
+(* X10: sos / eos of one sequence [sq] (positions); [idx] = all remaining positions of the paragraph *)
+Definition lev_at (xlev : list (option nat)) (pl i : nat) : nat :=
+  match snth xlev i None with Some l => l | None => pl end.
+Definition seq_sos (xlev : list (option nat)) (pl : nat) (idx sq : list nat) : bclass :=
+  let first := first_of sq in
+  let pred := match rev (filter (fun i => i <? first) idx) with i :: _ => lev_at xlev pl i | [] => pl end in
+  dir_of_level (Nat.max (lev_at xlev pl first) pred).
+Definition seq_eos (cls0 : list bclass) (xlev : list (option nat)) (pl : nat) (idx sq : list nat) : bclass :=
+  let last_ := last_of sq in
+  let succ := if is_init (snth cls0 last_ ON) &&
+                 match matching_pdi cls0 last_ with None => true | Some _ => false end
+              then pl
+              else match filter (fun i => last_ <? i) idx with i :: _ => lev_at xlev pl i | [] => pl end in
+  dir_of_level (Nat.max (lev_at xlev pl last_) succ).
+
+(* W, N0, N1/N2 on the classes [t0] of one sequence, given sos/eos, the embedding direction and the
+   bracket data of its characters *)
+Definition resolve_classes (sos eos edir : bclass) (brks : list (option (N * bool))) (t0 : list bclass)
+  : list bclass :=
+  let orig_nsm := map (fun c => c =c NSM) t0 in
+  let t1 := weak sos t0 in
+  let pairs := bracket_pairs t1 brks in
+  let t2 := fold_left (n0_one sos edir orig_nsm) pairs t1 in
+  neutral sos eos edir t2.
+
 Definition resolve_sequence (cls0 cls : list bclass) (brk : list (option (N * bool)))
            (xlev : list (option nat)) (pl : nat) (idx : list nat) (sq : list nat)
   : list (nat * nat) :=
-  let lv i := match snth xlev i None with Some l => l | None => pl end in
-  let first := first_of sq in
-  let last_ := last_of sq in
-  let slev := lv first in
-  let before := filter (fun i => i <? first) idx in
-  let after := filter (fun i => last_ <? i) idx in
-  let pred := match rev before with i :: _ => lv i | [] => pl end in
-  let succ := if is_init (snth cls0 last_ ON) && match matching_pdi cls0 last_ with None => true | Some _ => false end
-              then pl
-              else match after with i :: _ => lv i | [] => pl end in
-  let sos := dir_of_level (Nat.max slev pred) in
-  let eos := dir_of_level (Nat.max (lv last_) succ) in
-  let t0 := map (fun i => snth cls i ON) sq in
-  let orig_nsm := map (fun c => c =c NSM) t0 in
-  let t1 := weak sos t0 in
-  let edir := dir_of_level slev in
-  let pairs := bracket_pairs t1 (map (fun i => snth brk i None) sq) in
-  let t2 := fold_left (n0_one sos edir orig_nsm) pairs t1 in
-  let t3 := neutral sos eos edir t2 in
-  map (fun ic => (fst ic, implicit_level (lv (fst ic)) (snd ic))) (combine sq t3).
+  let sos := seq_sos xlev pl idx sq in
+  let eos := seq_eos cls0 xlev pl idx sq in
+  let edir := dir_of_level (lev_at xlev pl (first_of sq)) in
+  let t3 := resolve_classes sos eos edir (map (fun i => snth brk i None) sq) (map (fun i => snth cls i ON) sq) in
+  map (fun ic => (fst ic, implicit_level (lev_at xlev pl (fst ic)) (snd ic))) (combine sq t3).
 
 Fixpoint assoc_nat (k : nat) (l : list (nat * nat)) : option nat :=
   match l with
